@@ -458,6 +458,103 @@ theorem boxed_hmc_invariant (lb ub : ι → Option ℝ) (w : ι → ℝ) (hwf : 
   boxed_position_invariant lb ub w hwf U K hU hK hKeven g hg _ (C01.schedule_palindrome c i h n) f hf
 end boxedN
 
+/-! ### randomised step size in a box: both features together -/
+section boxedRandomised
+variable {ι : Type} [Fintype ι]
+
+theorem correctorPair_measurable (lb ub : Option ℝ) : Measurable (fun z : ℝ × ℝ => correctorR lb ub z.1 z.2) := by
+  have h := cdriftMapO_measurable lb ub 0
+  have e : cdriftMapO lb ub 0 = fun z : ℝ × ℝ => correctorR lb ub z.1 z.2 := by
+    funext z; simp [cdriftMapO, cdrift1]
+  rwa [e] at h
+
+attribute [local irreducible] correctorR in
+/-- the box corrector on `V × V` is measurable -/
+theorem boxReflProd_measurable (lb ub : ι → Option ℝ) :
+    Measurable (fun x : Phase ι => toProd (C01.boxRefl lb ub (ofProd x))) := by
+  have hc : ∀ i, Measurable (fun x : Phase ι => correctorR (lb i) (ub i) (x.1 i) (x.2 i)) := fun i =>
+    Measurable.comp (g := fun z : ℝ × ℝ => correctorR (lb i) (ub i) z.1 z.2) (f := fun x : Phase ι => (x.1 i, x.2 i))
+      (correctorPair_measurable (lb i) (ub i))
+      (((measurable_pi_apply i).comp measurable_fst).prodMk ((measurable_pi_apply i).comp measurable_snd))
+  have e : (fun x : Phase ι => toProd (C01.boxRefl lb ub (ofProd x)))
+      = fun x : Phase ι => ((fun i => (correctorR (lb i) (ub i) (x.1 i) (x.2 i)).1 : Vec ι),
+          (fun i => (correctorR (lb i) (ub i) (x.1 i) (x.2 i)).2 : Vec ι)) := by
+    funext x; simp only [toProd, ofProd, C01.boxRefl]
+  rw [e]
+  refine Measurable.prodMk ?_ ?_
+  · exact measurable_pi_iff.mpr fun i => measurable_fst.comp (hc i)
+  · exact measurable_pi_iff.mpr fun i => measurable_snd.comp (hc i)
+
+/-- the boxed trajectory with every coefficient scaled by `u`, as a function of `(state, u)` -/
+noncomputable def scaledTrajBox (lb ub : ι → Option ℝ) (w : ι → ℝ) (g : Vec ι → Vec ι) : List (Op ℝ) → Phase ι × ℝ → Phase ι
+  | [], p => p.1
+  | o :: os, p => scaledTrajBox lb ub w g os (stepBox lb ub w g p.1 (C01.scaleOp p.2 o), p.2)
+
+theorem scaledTrajBox_eq (lb ub : ι → Option ℝ) (w : ι → ℝ) (g : Vec ι → Vec ι) (ops : List (Op ℝ)) (x : Phase ι) (u : ℝ) :
+    scaledTrajBox lb ub w g ops (x, u) = trajBox lb ub w g (ops.map (C01.scaleOp u)) x := by
+  induction ops generalizing x with
+  | nil => rfl
+  | cons o os ih =>
+    simp only [scaledTrajBox, List.map_cons]
+    rw [ih, trajBox_cons]
+
+theorem scaledTrajBox_measurable (lb ub : ι → Option ℝ) (w : ι → ℝ) (g : Vec ι → Vec ι) (hg : Measurable g)
+    (ops : List (Op ℝ)) : Measurable (scaledTrajBox lb ub w g ops) := by
+  induction ops with
+  | nil => exact measurable_fst
+  | cons o os ih =>
+    have hstep : Measurable (fun p : Phase ι × ℝ => (stepBox lb ub w g p.1 (C01.scaleOp p.2 o), p.2)) := by
+      refine Measurable.prodMk ?_ measurable_snd
+      cases o with
+      | drift c =>
+        have hd : Measurable (fun p : Phase ι × ℝ => ((p.1.1 + (p.2 * c) • C01.diagVel w p.1.2, p.1.2) : Phase ι)) := by
+          have hvel : Measurable (C01.diagVel w) := by
+            unfold C01.diagVel
+            exact measurable_pi_iff.mpr fun i => measurable_const.mul (measurable_pi_apply i)
+          exact ((measurable_fst.comp measurable_fst).add
+            ((measurable_snd.mul_const c).smul (hvel.comp (measurable_snd.comp measurable_fst)))).prodMk
+            (measurable_snd.comp measurable_fst)
+        have e : (fun p : Phase ι × ℝ => stepBox lb ub w g p.1 (C01.scaleOp p.2 (Op.drift c)))
+            = (fun x : Phase ι => toProd (C01.boxRefl lb ub (ofProd x))) ∘
+              (fun p : Phase ι × ℝ => ((p.1.1 + (p.2 * c) • C01.diagVel w p.1.2, p.1.2) : Phase ι)) := by
+          funext p; simp only [stepBox, stepOp, C01.scaleOp, Function.comp, ofProd]
+        rw [e]
+        exact (boxReflProd_measurable lb ub).comp hd
+      | kick c =>
+        change Measurable (fun p : Phase ι × ℝ => (p.1.1, p.1.2 - (p.2 * c) • g p.1.1))
+        exact (measurable_fst.comp measurable_fst).prodMk
+          ((measurable_snd.comp measurable_fst).sub
+            ((measurable_snd.mul_const c).smul (hg.comp (measurable_fst.comp measurable_fst))))
+    exact ih.comp hstep
+
+/-- **HMC in a box with a randomised step size is stationary** (any dimension, any box, Unit / Diagonal metric,
+    any probability law of the factor) -/
+theorem boxed_hmc_randomised_invariant (lb ub : ι → Option ℝ) (w : ι → ℝ) (hwf : C01.WellFormed lb ub)
+    (U K : Vec ι → ℝ) (hU : Measurable U) (hK : Measurable K) (hKeven : ∀ p, K (-p) = K p)
+    (g : Vec ι → Vec ι) (hg : Measurable g) (c : Coeffs ℝ) (i : Integrator) (h : ℝ) (n : Nat)
+    (ν : Measure ℝ) [IsProbabilityMeasure ν] (f : Vec ι → ℝ≥0∞) (hf : Measurable f) :
+    ∫⁻ x, gibbs U K x * (∫⁻ u, codeKernelBox lb ub w U K g (schedule c i (localStep true u h) n) f x ∂ν)
+        ∂(((volume : Measure (Vec ι)).prod volume).restrict (openBox lb ub))
+      = ∫⁻ x, gibbs U K x * f x.1 ∂(((volume : Measure (Vec ι)).prod volume).restrict (openBox lb ub)) := by
+  have hH : Measurable (energy U K) := (hU.comp measurable_fst).add (hK.comp measurable_snd)
+  have hT := scaledTrajBox_measurable lb ub w g hg (schedule c i h n)
+  have hprop : ∀ (x : Phase ι) (u : ℝ),
+      trajBox lb ub w g (schedule c i (localStep true u h) n) x = scaledTrajBox lb ub w g (schedule c i h n) (x, u) := by
+    intro x u; rw [scaledTrajBox_eq, C01.randomised_scales_uniformly]
+  have hacc : Measurable (fun p : Phase ι × ℝ =>
+      ENNReal.ofReal (min 1 (Real.exp (energy U K p.1 - energy U K (scaledTrajBox lb ub w g (schedule c i h n) p))))) :=
+    ENNReal.measurable_ofReal.comp (measurable_const.min
+      (Real.measurable_exp.comp ((hH.comp measurable_fst).sub (hH.comp hT))))
+  refine mixture_invariant (((volume : Measure (Vec ι)).prod volume).restrict (openBox lb ub)) ν (gibbs U K)
+    (ENNReal.measurable_ofReal.comp (Real.measurable_exp.comp hH.neg))
+    (fun u _ x => codeKernelBox lb ub w U K g (schedule c i (localStep true u h) n) f x) (fun x => f x.1) ?_ ?_
+  · simp only [codeKernelBox, hprop]
+    exact (hacc.mul (hf.comp (measurable_fst.comp hT))).add
+      ((measurable_const.sub hacc).mul (hf.comp (measurable_fst.comp measurable_fst)))
+  · intro u
+    exact boxed_hmc_invariant lb ub w hwf U K hU hK hKeven g hg c i (localStep true u h) n f hf
+end boxedRandomised
+
 /-! ### non-vacuity of the boxed theorems: a concrete box, potential, kinetic energy and gradient meet the hypotheses,
     and the strip carries mass (`volume.restrict (openStrip 0 1) ≠ 0`) -/
 example : (0:ℝ) < 1 ∧ Measurable (fun q : ℝ => q ^ 2 / 2) ∧ Measurable (fun p : ℝ => p ^ 2 / 2)
